@@ -126,7 +126,7 @@ def lift_irrational(x):
     cand = math.sqrt(sq)
     if abs(cand - abs(x)) <= 4e-16 * max(1.0, abs(x)):
         t = sqrt_fraction(sq)
-        return SC(t if x > 0 else ir.rneg(t))
+        return SC(t if x > 0 else ir.rneg(t), None, SC(ir.rconst(sq)))
     return None
 
 
@@ -341,6 +341,11 @@ class SC(_ScalarLike):
         a, b, c, d = self.re, self.im, o.re, o.im
         if b is ir.ZERO:
             if d is ir.ZERO:
+                # keep the known square through scaling by constants: (k*sqrt(e))^2 = k^2 e
+                if self.sq is not None and c.op == 'const':
+                    return SC(ir.rmul(a, c), None, self.sq * SC(ir.rconst(c.val * c.val)))
+                if o.sq is not None and a.op == 'const':
+                    return SC(ir.rmul(a, c), None, o.sq * SC(ir.rconst(a.val * a.val)))
                 return SC(ir.rmul(a, c))
             return SC(ir.rmul(a, c), ir.rmul(a, d))
         if d is ir.ZERO:
@@ -367,6 +372,12 @@ class SC(_ScalarLike):
             d = o.re
             if d.op != 'const':
                 CTX.side.append(('div', ir.bnot(ir.rcmp('eq', d, ir.ZERO))))
+            elif self.sq is not None and self.isreal:
+                return SC(ir.rdiv(self.re, d), None, self.sq * SC(ir.rconst(1 / (d.val * d.val))))
+            elif o.sq is not None and self.isreal and self.sq is not None:
+                pass
+            if self.sq is not None and o.sq is not None and self.isreal:
+                return SC(ir.rdiv(self.re, d), None, self.sq / o.sq)
             return SC(ir.rdiv(self.re, d), ir.rdiv(self.im, d))
         return self * o.recip()
 
@@ -551,7 +562,15 @@ def as_sc(x):
         if x.ndim == 0:
             return as_sc(x.item())
         return NotImplemented
-    if isinstance(x, (bool, int, float, Fraction, np.integer, np.floating, np.bool_)):
+    if isinstance(x, (float, np.floating)):
+        xf = float(x)
+        f = lift_float(xf)
+        if f.denominator > 10**6:
+            s = lift_irrational(xf)
+            if s is not None:
+                return s
+        return SC(ir.rconst(f))
+    if isinstance(x, (bool, int, Fraction, np.integer, np.bool_)):
         return SC(lift_real(x))
     if isinstance(x, (complex, np.complexfloating)):
         x = complex(x)
